@@ -10,7 +10,7 @@ ms = json.load(open(os.path.join(V, "mutants", prop + ".json")))
 res = []
 # work on a scratch copy of the crate (and of the witness crate, pointed at the copy): /repo itself is never touched
 import shutil, tempfile
-SCR = f"/tmp/vxmut_{prop}"
+SCR = f"/tmp/vxmut_{prop}_{os.getpid()}"
 shutil.rmtree(SCR, ignore_errors=True)
 os.makedirs(SCR)
 subprocess.run(["rsync", "-a", "--exclude", "target", "--exclude", ".git", "/repo/", SCR + "/repo/"], check=True)
